@@ -608,6 +608,18 @@ def rule_ord(env, shared):
     return out
 
 
+def _all_callers_pass_true(env, b, pidx):
+    callers = [(cb, cbb) for (cb, cbb) in all_callers(env, b.def_) if cb.def_ != b.def_]
+    if not callers:
+        return False
+    for (cb, cbb) in callers:
+        cctx = env.ctx(cb, env.F.impl_self_adt(cb), None)
+        args = cb.term(cbb)["args"]
+        if pidx - 1 >= len(args) or unref(env.ev.operand(cctx, args[pidx - 1])) not in (("const", "true"), ("int", 1)):
+            return False
+    return True
+
+
 def rule_sticky(env, shared):
     """STICKY: the completed flag only ever goes up: every store to it has the constant operand true."""
     T = _ticket(env)
@@ -627,6 +639,10 @@ def rule_sticky(env, shared):
                 n += 1
                 if e.info["op"] == "store" and len(e.args) >= 2 and e.args[1] in (("const", "true"), ("int", 1)):
                     out.append(Ob("STICKY", k, "ok", e.loc(), "flag store writes the constant true"))
+                elif e.info["op"] == "store" and len(e.args) >= 2 and unref(e.args[1])[0] == "param" and not b.is_closure \
+                        and not (b.info or {}).get("exported") and _all_callers_pass_true(env, b, unref(e.args[1])[1]):
+                    # a private setter `fn set_completed(&self, v: bool)`: judged at its call sites
+                    out.append(Ob("STICKY", k, "ok", e.loc(), "private setter: every caller passes the constant true"))
                 else:
                     out.append(Ob("STICKY", k, "viol", e.loc(),
                                   "the end-of-iteration flag is written by %s(%s): it must only ever be set to true, "
